@@ -3,7 +3,7 @@ from __future__ import annotations
 
 import ast
 
-from .. import AnalysisError, flow, states, rules, gd
+from .. import AnalysisError, flow, states, rules, gd, cmp
 from ..report import Ctx
 
 SSO = "nrel/hive/state/simulation_state/update/step_simulation_ops.py"
@@ -348,6 +348,48 @@ def first_update_after_grant(ctx: Ctx):
 def leave_queue(ctx: Ctx):
     from .c02 import terminal
     terminal(ctx)
+    ctx.attempt(queue_hand_over, ctx)
+
+
+def queue_hand_over(ctx: Ctx):
+    """When its terminal condition holds, the head of the queue must really get the plug: ChargeQueueing._default_terminal_state
+    yields ChargingStation.build(own vehicle, own station, own plug type) exactly when the vehicle and the station exist and the
+    station has a free plug of that type (all 8 valuations of the three atoms) — an error under any of those valuations rolls
+    the vehicle's step back every step, and the vehicles behind it are served first."""
+    import itertools
+
+    cq = states.state_class(ctx.repo, "ChargeQueueing")
+    fn = ctx.repo.method(cq.cls, "_default_terminal_state")
+    ctx.require(fn is not None, "ChargeQueueing._default_terminal_state not found")
+    sim = fn.params[1]
+    V = f"{sim}.vehicles.get(self.vehicle_id)"
+    S = f"{sim}.stations.get(self.station_id)"
+    H = f"{S}.has_available_charger(self.charger_id)"
+    paths = flow.paths(fn.node)
+    bad = []
+    n = 0
+    for v, s_, h in itertools.product([False, True], repeat=3):
+        if not s_ and h:
+            continue
+        free = {V: v, S: s_, H: h, f"{V} is None": not v, f"{V} is not None": v, f"{S} is None": not s_, f"{S} is not None": s_,
+                f"$isnone({V})": not v, f"$isnone({S})": not s_,
+                f"{H} if {S} is not None else False": h, f"{H} if {S} else False": h}
+        ev = cmp.Evaluator({}, free)
+        try:
+            p = cmp.taken_path(paths, ev)
+        except cmp.Unknown as u:
+            raise AnalysisError(f"ChargeQueueing._default_terminal_state consults `{flow.dump(u.node)[:80]}`, outside (vehicle, station, free plug)")
+        if p is None:
+            raise AnalysisError("ChargeQueueing._default_terminal_state: no path for a valuation")
+        n += 1
+        kind = flow.classify_result(p.value) if p.kind == "return" else p.kind
+        got_ok = kind == "ok" and isinstance(p.value, ast.Tuple) and flow.dump(flow.core(p.value.elts[1])) == "ChargingStation.build(self.vehicle_id, self.station_id, self.charger_id)"
+        want_ok = v and s_ and h
+        if got_ok != want_ok or (not want_ok and kind == "ok"):
+            bad.append(({"vehicle": v, "station": s_, "free plug": h}, kind, flow.dump(p.value)[:80] if p.value is not None else None))
+    ctx.check(not bad, "D3", "GD.queue-hand-over", "the head of the queue is handed ChargingStation(own station, own plug type) exactly when vehicle, station and a free plug exist", fn,
+              why_ok=f"{n} valuations", why_bad=f"differs on {bad[:3]}: the queued vehicle is not handed over although a plug is free (or is handed over without one), every step",
+              construct="ChargeQueueing._default_terminal_state:table", witness={"bad": [str(b) for b in bad[:6]]})
 
 
 def selftest():
